@@ -424,7 +424,7 @@ func (u *Unit) checkReturn(f *Frame, rst *State, rets []Val) {
 		}
 	}
 	// frame: a verified unit with a modifies clause must leave every other known class untouched
-	if spec.ModSet && !spec.Assumed {
+	if spec.ModSet && !spec.Assumed && !spec.FrameAssumed {
 		allowed := map[string]bool{}
 		for _, it := range spec.Modifies {
 			for _, c := range u.resolveModClasses(it, spec.Pkg) {
